@@ -1120,6 +1120,11 @@ mod repr {
         if f.is_infinite() {
             return Inexact(f, Sign::Positive);
         }
+        // the cast back saturates: a float that rounded up to 2^DWORD_BITS would compare
+        // equal to DoubleWord::MAX (reachable when DoubleWord is narrower than the f32 range)
+        if f >= ((1 as DoubleWord) << (DoubleWord::BITS - 1)) as f32 * 2.0 {
+            return Inexact(f, Sign::Positive);
+        }
 
         let back = f as DoubleWord;
         match back.partial_cmp(&dword).unwrap() {
